@@ -4,6 +4,7 @@ import PharmpyProofs.C20.Split
 import PharmpyProofs.C20.Sym
 import PharmpyProofs.C20.Ext
 import PharmpyProofs.C20.Zero
+import PharmpyProofs.C20.Misc
 import PharmpyModel.C20.Spec
 /-
   C20 — Estimation results are read faithfully from NONMEM output.  Property theorems only.
@@ -23,9 +24,6 @@ theorem parse_render_cell (c : Cell) (d : Dec) (hok : cellOk c = true) (hd : cel
 
 
 /-! ## parse ∘ render -/
-
-theorem padRow_full (n : Nat) (r : List Str) (h : r.length = n) : padRow n r = r.map some := by
-  simp [padRow, h]
 
 /-- **parse ∘ render = id** for every table that fits its format (any number of columns and rows,
     any column widths): reading the lines produced by the reference writer gives back the column
@@ -292,35 +290,8 @@ theorem repeated_headers_removed (h : Str) (ls : List (Bool × Str))
   intro p hp
   simp [Function.comp, hh p hp]
 
-/-- A numeric cell starts with a digit or a minus sign… -/
-theorem numeric_cell_head (cell : Cell) (hnum : ∀ s, cell ≠ .label s) :
-    ∃ c t, renderCell cell = c :: t ∧ (isDig c = true ∨ c = '-') := by
-  have hnat : ∀ n, ∃ c t, natDigits n = c :: t ∧ isDig c = true := by
-    intro n
-    cases h : natDigits n with
-    | nil => exact absurd h (natDigits_ne_nil n)
-    | cons c t => exact ⟨c, t, rfl, natDigits_allDig n c (by rw [h]; simp)⟩
-  cases cell with
-  | label s => exact absurd rfl (hnum s)
-  | int i =>
-    simp only [renderCell]
-    split
-    · exact ⟨'-', _, rfl, Or.inr rfl⟩
-    · obtain ⟨c, t, h1, h2⟩ := hnat i.toNat
-      exact ⟨c, t, h1, Or.inl h2⟩
-  | sci neg d mant exp =>
-    cases neg with
-    | true => exact ⟨'-', _, rfl, Or.inr rfl⟩
-    | false =>
-      exact ⟨digitChar (mant / 10 ^ d % 10), _, rfl, Or.inl (isDig_digitChar _)⟩
-  | fix neg ip k fp =>
-    cases neg with
-    | true => exact ⟨'-', _, rfl, Or.inr rfl⟩
-    | false =>
-      obtain ⟨c, t, h1, h2⟩ := hnat ip
-      exact ⟨c, t ++ '.' :: padDigits k fp, by simp [renderCell, signStr, h1], Or.inl h2⟩
-
-/-- …so a data line whose first field is a right-justified number that fits is never mistaken
+/-- A data line whose first field is a right-justified number that fits (it starts with a digit or a
+    minus sign, `numeric_cell_head`) is never mistaken
     for a repeated header line (and is kept by `dropRepeatedHeaders`). -/
 theorem data_line_not_header (w : Nat) (cell : Cell) (rest : Str) (hnum : ∀ s, cell ≠ .label s)
     (hfit : (renderCell cell).length < w) :
@@ -354,23 +325,6 @@ theorem data_line_not_header (w : Nat) (cell : Cell) (rest : Str) (hnum : ∀ s,
     simp [looksLikeHeader, isAlpha, isUpper, isLower]
 
 /-! ## rename_index -/
-
-theorem prefixes_disjoint (c : Str) :
-    (startsWith thetaP c = true → startsWith omegaP c = false ∧ startsWith sigmaP c = false)
-    ∧ (startsWith omegaP c = true → startsWith sigmaP c = false) := by
-  have h1 : thetaP = ['T', 'H', 'E', 'T', 'A'] := by decide
-  have h2 : omegaP = ['O', 'M', 'E', 'G', 'A'] := by decide
-  have h3 : sigmaP = ['S', 'I', 'G', 'M', 'A'] := by decide
-  rw [h1, h2, h3]
-  cases c with
-  | nil => simp [startsWith, List.isPrefixOf]
-  | cons a t =>
-    simp only [startsWith, List.isPrefixOf, Bool.and_eq_true, beq_iff_eq, Bool.and_eq_false_imp]
-    constructor
-    · rintro ⟨rfl, _⟩
-      constructor <;> (intro h; exact absurd h (by decide))
-    · rintro ⟨rfl, _⟩ h
-      exact absurd h (by decide)
 
 /-- Reordering to THETA, OMEGA, SIGMA loses and duplicates nothing: for every list of labels that
     each start with THETA, OMEGA or SIGMA (any length, any order — NONMEM writes THETA, SIGMA,
@@ -411,9 +365,6 @@ theorem rename_order_perm (cols : List Str)
         | true => have := hd.2 hx; rw [hs] at this; cases this
       simp only [List.filter_cons, ht, ho, hs, if_true, Bool.false_eq_true, if_false]
       exact List.perm_middle.trans (List.Perm.cons c ih')
-
-theorem renameThetaAux_nil (fuel : Nat) : renameThetaAux fuel [] = [] := by
-  cases fuel <;> rfl
 
 /-- `THETAn` becomes `THETA(n)` for every n. -/
 theorem rename_theta (n : Nat) :
